@@ -16,9 +16,11 @@ THEOREMS = ['Flowdyn.C15.' + t for t in ('balance2d', 'periodic_x_fluxes', 'peri
            ['Flowdyn.C16.sym2d_def', 'Flowdyn.C20.bc_tables_nodup', 'Flowdyn.C20.left_is_xface0', 'Flowdyn.C20.top_is_yfaceN']
 AUDIT_IMPORTS = ['Flowdyn.Props.C02', 'Flowdyn.Props.C16', 'Flowdyn.Props.C20', 'Flowdyn.Props.Kernels2DBridge', 'Flowdyn.Props.C15b', 'Flowdyn.Props.C15c']
 THEOREMS = THEOREMS + core.theorems_in(['C15b.lean', 'C15c.lean'], 'Flowdyn.C15')
+AUDIT_IMPORTS = AUDIT_IMPORTS + ['Flowdyn.Props.C15d']
+THEOREMS = THEOREMS + core.theorems_in(['C15d.lean'], 'Flowdyn.C15d')
 THEOREMS = THEOREMS + ['Flowdyn.GenK2.%s_eq' % k for k in ['e2Centered', 'e2Hlle', 'e2Cons2prim', 'e2BcSym', 'e2BcInsub', 'e2BcInsup', 'e2BcOutsub', 'e2BcOutsup']]
 PARTIAL = {"reflections": "reflection of the full 2D operator in x and in y with any boundary pairs (exchanged and conjugated) is proved (C15b.rhs_reflect_x/_y) and instantiated for Euler 2D (euler2d_reflect_x/_y, euler2dBC_reflect_*); for HLLE the instantiation assumes positive face densities at the mirrored cell (Real.sqrt of a negative ratio is 0)",
-           "walls in the reduction": "proved (C15c): for y-independent data with zero y-momentum and slip walls (or periodicity) at top/bottom, the 2D residuals of density, x-momentum and energy equal, row by row, the residuals of the model's own 1D Euler pipeline (same flux, scheme and matching x-boundary kernels: periodic, sym, outsup, outsub) and the y-momentum residual vanishes (euler2d_rows_walls, euler2d_rows_periodic); dirichlet/inlet x-boundaries in that bridge are explored by the sweep",
+           "walls in the reduction": "proved (C15c): for y-independent data with zero y-momentum and slip walls (or periodicity) at top/bottom, the 2D residuals of density, x-momentum and energy equal, row by row, the residuals of the model's own 1D Euler pipeline (same flux, scheme and matching x-boundary kernels: periodic, sym, outsup, outsub) and the y-momentum residual vanishes (euler2d_rows_walls, euler2d_rows_periodic); every named 2D x-boundary kernel is matched to the 1D kernel of the same name on a side of normal (-1,0) / (1,0) (C15d: dirichlet with zero y-velocity, insub, insup without angle or with the angle of normal inflow, sym, outsub, outsup; sideMatch_named, BCMatch_named) giving euler2d_rows_named for any left/right combination; the side conditions are sharp (dirichlet_match_iff, insup_angle_match_iff, and the concrete mismatch of an angle-0 inlet on the right side)",
            "inlet/outlet 2D mirror laws": "the named 2D boundary kernels conjugated by the sign map are the mirrored named kernels (C15b.euler2dBC_reflect_x/_y)"}
 LEVEL_NOTE = "structured 2D model with flattening maps validated by L-rhs2d / L-mesh2d"
 
